@@ -72,7 +72,21 @@ func (h *spyHub) cur() *Spies {
 
 func toStr(v interface{}) string { return fmt.Sprint(v) }
 
+// installSandbox gives the engine a security policy (needed by `include … sandboxed`): the default
+// policy plus the harness callbacks and a few deterministic built-ins.
+func installSandbox(e *twig.Engine) {
+	p := twig.NewDefaultSecurityPolicy()
+	for _, f := range []string{"spy", "tick", "max", "min", "range", "length"} {
+		p.AllowedFunctions[f] = true
+	}
+	for _, f := range []string{"spyf", "json_encode", "keys", "merge", "replace", "striptags", "url_encode", "round", "number_format"} {
+		p.AllowedFilters[f] = true
+	}
+	e.EnableSandbox(p)
+}
+
 func installSpies(e *twig.Engine, h *spyHub) {
+	installSandbox(e)
 	e.AddFunction("spy", func(args ...interface{}) (interface{}, error) {
 		id := "?"
 		if len(args) > 0 {
